@@ -774,7 +774,9 @@ func ruleS6(c *Ctx) {
 	}
 	n := 0
 	for _, fn := range c.P.Funcs {
-		if !isProdPkg(fnPkgPath(fn)) {
+		// every package of the module that ships to hosts, the test helpers (starlarktest's assert.fails)
+		// and the REPL included: they run on the host's threads
+		if !strings.HasPrefix(fnPkgPath(fn), modPath) || strings.HasSuffix(c.P.Fset.Position(fn.Pos()).Filename, "_test.go") {
 			continue
 		}
 		fn := fn
